@@ -7,12 +7,18 @@
      every bound workload on it and every keep-cpu-bind request with zero cpu
      delta and any memory delta: if CalculateRealloc grants the request, the new
      resource has exactly the origin's cpu map and NUMA node.
-   It is refuted twice (both witnesses replayed on the real code by the harness
-   corpus, see known_findings.d/C33.json):
-     C33_numa_refuted        with NUMA, plans[0] comes from whichever NUMA node
-                             Go's map iteration visits first;
-     C33_fractional_refuted  a fractional bound workload gets its whole core and
-                             its fragment core swapped. *)
+   It is refuted (witnesses replayed on the real code by the harness corpus,
+   see known_findings.d/C33.json):
+     C33_fractional_refuted   a fractional bound workload gets its whole core and
+                              its fragment core swapped;
+     C33_numa_memory_refuted  a memory growth beyond the free memory of the
+                              workload's NUMA node is granted across NUMA nodes
+                              (NUMA node cleared) instead of being refused.
+   A third refutation is history: before /repo 3d8e6c0 the first plan came from
+   whichever NUMA node Go's map iteration visited first (C33_numa_refuted: the
+   model still takes the order as an argument and the old witness fails for the
+   order ["0";"1"]); the code now visits the origin's NUMA node first and the
+   witness keeps its cores (C33_numa_witness_now). *)
 From Coq Require Import String List ZArith.
 From Verif Require Import Base.GoFloat Cpumem.Types Cpumem.Schedule Cobalt.Merge Cobalt.Realloc Cobalt.ReallocProofs.
 Import ListNotations.
@@ -33,6 +39,25 @@ Theorem C33_numa_order_dependent :
   end.
 Proof. exact numa_witness_other_order. Qed.
 Print Assumptions C33_numa_order_dependent.
+
+Theorem C33_numa_witness_now :
+  numa_visit_order (put_back numa_info numa_origin) (wr_cpumap numa_origin) = ["1"; "0"] /\
+  match numa_run (numa_visit_order (put_back numa_info numa_origin) (wr_cpumap numa_origin)) with
+  | Ok (inr (new, _)) => keeps_cores numa_origin new = true
+  | _ => False
+  end.
+Proof. exact numa_witness_now. Qed.
+Print Assumptions C33_numa_witness_now.
+
+Theorem C33_numa_memory_refuted :
+  match calculate_realloc numa_info 100 (-1) numa_origin grow_req
+          (numa_visit_order (put_back numa_info numa_origin) (wr_cpumap numa_origin))
+          (default_fuel (put_back numa_info numa_origin)) with
+  | Ok (inr (new, _)) => keeps_cores numa_origin new = false /\ wr_numanode new = ""
+  | _ => False
+  end.
+Proof. exact numa_memory_witness. Qed.
+Print Assumptions C33_numa_memory_refuted.
 
 Theorem C33_fractional_refuted :
   match frac_run with
